@@ -13,7 +13,7 @@ SHIMS = {
     'A-path/fs': 'Path/PathBuf are opaque values with an identity; PathBuf::from/clone/as_ref preserve it',
     'A-arith': 'at the macro-expansion push the defining range begin + expansion length fits in usize (precondition of push; proved at copy sites)',
     'A-node': 'RefNode is an opaque handle; children are given by the derive-generated next(); trees are finite',
-    'A-glue': 'the event loop of preprocess_str dispatches each non-skipped event to the arm selected by Rust match and nothing else touches the loop state (the loop itself is not verified)',
+    'A-glue': 'R-outline: unit glue verifies the event loop of preprocess_str with each arm BODY replaced by a call of the function unit arms verified that body as (same parameter names; that an arm hands back every loop variable it assigns is a syntactic side condition, checked). What remains assumed: the order in which Rust evaluates the three matches of one iteration is the textual one, and the grammar invariant tree_ok of the parsed pp tree (C01 for the pp grammar).',
     'A-hashmap': 'HashMap<String,_> is a finite map keyed by the string bytes',
     'A-vec': 'vstd Vec specifications, plus <[T]>::reverse reverses the view',
     'A-nom': 'nom/nom_locate primitives and combinators have their documented sequencing semantics (see DESIGN 2.3)',
@@ -24,7 +24,7 @@ SHIMS = {
 PROPS = {
     'C03': dict(
         title='origin map',
-        units=['pt', 'arms', 'expand', 'rtmu'],
+        units=['pt', 'arms', 'expand', 'rtmu', 'glue'],
         shims=['A-btree', 'A-str', 'A-path/fs', 'A-arith', 'A-glue'],
         design='DESIGN.md 3/C03',
         technique='contract-based deductive verification (Verus) of the real PreprocessedText/Range code extracted from /repo on every run',
@@ -81,10 +81,10 @@ PROPS['C16'] = dict(
     not_covered=['that the build script generates one RefNode/AnyNode variant per derive(Node) type (the templates are verified on a five-variant instance)'],
 )
 
-ARMS_NOTE = 'The arms of preprocess_str are verified one by one (rule R-arm); the dispatch loop around them is assumed (A-glue). Callees carry contracts proved in other units (push/merge: pt; Locate::str: getstr; try_into fold: derive) or assumed on their real signature (preprocess_inner, resolve_text_macro_usage, identifier). Grammar invariants (each node has a contiguous leaf inside s, identifiers present) are preconditions.'
+ARMS_NOTE = 'The arms of preprocess_str are verified one by one (rule R-arm); the loop around them is verified in unit glue with the arm bodies outlined (A-glue): it establishes every arm precondition from one grammar invariant, keeps the text well formed, starts from the stated initial state and returns the accumulated text and table; an arm the contracts do not know makes the unit undecided. Callees carry contracts proved in other units (push/merge: pt; Locate::str: getstr; try_into fold: derive) or assumed on their real signature (preprocess_inner, resolve_text_macro_usage, identifier). Grammar invariants (each node has a contiguous leaf inside s, identifiers present) are preconditions.'
 PROPS['C04'] = dict(
     title='conditional compilation',
-    units=['arms', 'pphelp'],
+    units=['arms', 'pphelp', 'glue'],
     shims=['A-glue', 'A-hashmap', 'A-str', 'A-node'],
     design='DESIGN.md 3/C04',
     technique='contract-based deductive verification (Verus) of the verbatim IfdefDirective / IfndefDirective arms against an IEEE 22.6 selection spec function, loop invariant over the `elsif chain',
@@ -104,7 +104,7 @@ PROPS['C05'] = dict(
 )
 PROPS['C06'] = dict(
     title='pass-through',
-    units=['arms', 'pt'],
+    units=['arms', 'pt', 'glue'],
     shims=['A-glue', 'A-str'],
     design='DESIGN.md 3/C06',
     technique='contract-based deductive verification (Verus) of the directive-free emission arms (copy exactly the bytes of their own leaf, identity origin) plus once-only obligations',
@@ -114,7 +114,7 @@ PROPS['C06'] = dict(
 )
 PROPS['C10'] = dict(
     title='include',
-    units=['arms', 'depth', 'wrap', 'rtmu'],
+    units=['arms', 'depth', 'wrap', 'rtmu', 'glue'],
     shims=['A-glue', 'A-path/fs', 'A-hashmap'],
     design='DESIGN.md 3/C10',
     technique='contract-based deductive verification (Verus) of the verbatim IncludeCompilerDirective arm incl. the include-path search loop; nested preprocessing as an uninterpreted function of named parameters',
@@ -124,7 +124,7 @@ PROPS['C10'] = dict(
 )
 PROPS['C11'] = dict(
     title='define table',
-    units=['arms', 'prologue', 'expand', 'rtmu', 'wrap', 'depth'],
+    units=['arms', 'prologue', 'expand', 'rtmu', 'wrap', 'depth', 'glue'],
     shims=['A-glue', 'A-hashmap', 'A-str'],
     design='DESIGN.md 3/C11',
     technique='contract-based deductive verification (Verus) of the verbatim `define / `undef / `undefineall arms and of the table adoption at include and expansion',
@@ -192,7 +192,7 @@ PROPS['C17'] = dict(
 )
 PROPS['C08'] = dict(
     title='totality',
-    units=['pt', 'wrap', 'iter', 'conv', 'derive', 'getstr', 'arms', 'depth', 'bind', 'pphelp', 'display', 'prologue', 'split', 'loc', 'expand', 'rtmu'],
+    units=['pt', 'wrap', 'iter', 'conv', 'derive', 'getstr', 'arms', 'depth', 'bind', 'pphelp', 'display', 'prologue', 'split', 'loc', 'expand', 'rtmu', 'glue', 'kwstack'],
     engines=[dict(module='gvc.engine', args=dict(analyses=('panics', 'faithful', 'nullable')))],
     shims=['A-btree', 'A-str', 'A-path/fs', 'A-node', 'A-vec', 'A-nom', 'A-glue'],
     design='DESIGN.md 3/C08',
